@@ -23,16 +23,21 @@ THEOREMS = [
     'Nb.C16.tck_chunk_independent',
     'Nb.C16.tck_ragged_refused',
     'Nb.C16.tck_roundtrip',
+    'Nb.C16.tck_file_roundtrip',
     'Nb.C16.name_codec_roundtrip',
     'Nb.C16.trk_records_roundtrip',
     'Nb.C16.trk_name_table_roundtrip',
     'Nb.C16.trk_columns_roundtrip',
+    'Nb.C16.trk_roundtrip',
     'Nb.C16.trackvis_affine_invertible',
     'Nb.C16.position_invariant',
     'Nb.C16.position_restored',
     'Nb.C16.position_orig_counterexample',
     'Nb.C16.lazy_items_agree',
     'Nb.C16.lazyItems_orig_counterexample',
+    'Nb.C16.lazy_eq_eager_tck',
+    'Nb.C16.lazy_eq_eager_trk',
+    'Nb.C16.lazy_eq_eager_trk_load',
 ]
 ASSUMPTIONS = [
     'hand-written Lean model of tck.py/trk.py/orientations.py (Model/C16.lean), tied to the code by the '
@@ -51,7 +56,7 @@ ASSUMPTIONS = [
     'the source into Generated/C16.lean on every run and tied to the model by generated `rfl`/`decide` obligations',
 ]
 RULE = ('streams: off (every header length 51..1200 + windows around each digit boundary of the offset up to 10^6); '
-        'buf (requests 0..40 + random, via argument and via rebinding tck.MEGABYTE); tckw (0..n streamlines of 1..m '
+        'buf (requests 0..40 + random, via argument and via rebinding tck.MEGABYTE); tckw / tckf (whole file bytes) (0..n streamlines of 1..m '
         'quarter-unit points x header lengths incl. digit boundaries); tckr (data sections incl. malformed: missing '
         'EOF, -inf EOF, empty pieces, partial NaN points, ragged tails x buffer sizes 12..96 bytes x consumer '
         'histories of next/close x start positions); nameenc/namedec/slices; aff (48 voxel orders x power-of-two '
@@ -159,6 +164,19 @@ def mk_tckw(L, sls):
               ('tckw', L, enc_sls(sls)) if sls else None)
 
 
+def expected_out(L, count):
+    """the header text `out` of `_write_header` (everything before the `file` entry) for text length L"""
+    base = b'mrtrix tracks\ncount: %010d\ndatatype: Float32LE' % count
+    assert len(base) == 51
+    return base if L == 51 else base + b'\np: ' + b'x' * (L - 55)
+
+
+def mk_tckf(L, req, sls):
+    out = expected_out(L, sum(1 for s in sls if len(s)))
+    return mk('tckf', f'C16 tckf {enc_words(out)} {req} {enc_sls(sls)}', {'L': L, 'req': req, 'sls': sls},
+              ('tckf', L, req, enc_sls(sls)))
+
+
 def mk_tckr(off, req, ragged, start, acts, data):
     return mk('tckr', f'C16 tckr {off} {req} {ragged} {start} {acts} {enc_sl(data)}',
               {'off': off, 'req': req, 'ragged': ragged, 'start': start, 'acts': acts, 'data': data},
@@ -218,6 +236,8 @@ def case_from_data(d):
         return mk_buf(d['req'], d['via'])
     if op == 'tckw':
         return mk_tckw(d['L'], d['sls'])
+    if op == 'tckf':
+        return mk_tckf(d['L'], d['req'], d['sls'])
     if op == 'tckr':
         return mk_tckr(d['off'], d['req'], d['ragged'], d['start'], d['acts'], d['data'])
     if op == 'nameenc':
@@ -440,6 +460,26 @@ def impl(case):
             return f'{n} {real} ragged'
         data = [int(x) for x in np.frombuffer(body, '<u4')]
         return f'{n} {real} ' + enc_sl([data[i:i + 3] for i in range(0, len(data), 3)])
+    if op == 'tckf':
+        sls = [bits_to_f32([w for t in s_ for w in t]) for s_ in d['sls']]
+        b = io.BytesIO()
+        TckFile(Tractogram(sls, affine_to_rasmm=np.eye(4)), header=tck_header_for(d['L'])).save(b)
+        raw = b.getvalue()
+        case.extra['raw'] = raw
+        f = io.BytesIO(raw)
+        hdr = TckFile._read_header(f)
+        res = 'ann=%d bytes=%s' % (hdr['_offset_data'], enc_words(list(raw)))
+        got = []
+        try:
+            for it in TckFile._read(f, hdr, buffer_size=d['req'] / tck.MEGABYTE):
+                got.append(f32_to_bits(it))
+            end = 'ok'
+        except ValueError:
+            end = 'ERR:ValueError'
+        except Exception as e:  # noqa: BLE001
+            end = err_token(e)
+        case.extra['got'] = got
+        return res + ' items=%s end=%s' % (enc_sls(got), end)
     if op == 'tckr':
         raw = tck_file_bytes(d['off'], d['data'], d['ragged'])
         f = io.BytesIO(raw)
@@ -732,6 +772,16 @@ def oracle(case, out):
                     got = [f32_to_bits(np.asarray(s)) for s in nib.streamlines.load(p, lazy_load=lazy).streamlines]
                     if got != want:
                         return f'TCK save/load by path (lazy={lazy}) differs: {str(got)[:150]} want {str(want)[:150]}'
+        return None
+    if op == 'tckf':
+        raw = ex['raw']
+        real = raw.index(b'\nEND\n') + 5
+        if not out.startswith('ann=%d ' % real):
+            return f'TCK file announces {out.split(" ")[0]} but its data start at byte {real} (header text length {d["L"]})'
+        if finite_bits(d['sls']):
+            want = [[list(t) for t in s_] for s_ in d['sls'] if len(s_)]
+            if ex.get('got') != want or not out.endswith('end=ok'):
+                return f'TCK file round trip (buffer request {d["req"]}) differs: {str(ex.get("got"))[:150]} want {str(want)[:150]}'
         return None
     if op == 'tckr':
         want, ok = ref_tck_parse(d['data'])
@@ -1149,6 +1199,10 @@ def cases(rng, tier):
         L = rng.choice(bl) if i % 2 else rng.choice([51, 55, 56, 70, 90, 300])
         out.append(mk_tckw(L, rand_sls(rng, 4, 5)))
     out.append(mk_tckw(51, []))
+    # ---- TCK file at byte level (whole file bytes compared with the model's, then read back)
+    for i in range({'quick': 300, 'thorough': 4000, 'search': 600}[tier]):
+        L = rng.choice([51, 55, 56, 60, 79, 80, 81, 82, 83, 84, 85, 86, 90, 120]) if i % 4 else rng.choice([977, 981, 982, 983, 984])
+        out.append(mk_tckf(L, rng.choice([0, 0, 12, 13, 30, 100, 5000]), rand_sls(rng, 3, 4)))
     # ---- TCK chunked reader, consumer histories, positions
     for i in range({'quick': 5000, 'thorough': 60000, 'search': 8000}[tier]):
         data = rand_tck_data(rng, malformed=(i % 3 == 0))
